@@ -18,7 +18,7 @@ type vpConn struct {
 var vpAddrs = [3]string{"1.1.1.1:6000", "1.1.1.1:6001", "2.2.2.2:6000"}
 var vpIPs = [3]string{"1.1.1.1", "1.1.1.1", "2.2.2.2"}
 var vpPorts = [3]uint16{6000, 6001, 6000}
-var vpListenPorts = [2]uint16{0, 7000}
+var vpListenPorts = [2]uint16{0, 6001} // 6001: the listen address of an incoming connection can coincide with an outgoing address
 
 type vpWorld struct {
 	c    *Connections
@@ -179,7 +179,7 @@ func (w *vpWorld) removeAllAndCheckEmpty() {
 }
 
 //vp:prop C24
-//vp:bounds 3 addresses on 2 IPs; pre-state: up to 2 connections each driven through the real API to pending / connected / introduced with free connection ids, mirrors and listen ports in {0,7000}; then 1 arbitrary event (quick: from up to 2 pre-state connections) or 2 arbitrary events (thorough: from up to 1 pre-state connection) (outgoing attempt, connect, introduce, remove) with free ids and mirrors; finally every live connection is removed
+//vp:bounds 3 addresses on 2 IPs; pre-state: up to 2 connections each driven through the real API to pending / connected / introduced with free connection ids, mirrors and listen ports in {0,6001}; then 1 arbitrary event (quick: from up to 2 pre-state connections) or 2 arbitrary events (thorough: from up to 1 pre-state connection) (outgoing attempt, connect, introduce, remove) with free ids and mirrors; finally every live connection is removed
 //vp:assume gnet hands out non-repeating connection ids (an id passed to connect is not held by another live connection)
 //vp:noreplay shadow model harness (natively replayable in principle; kept symbolic-only for speed)
 func vpH_C24_StepInvariant() {
